@@ -223,13 +223,18 @@ func (g *gCase) setupOps() []string {
 func (g *gCase) ops() []string {
 	ops := g.setupOps()
 	scratch := ccParse(ops).build(false)
-	caps := make([]int, len(g.routes))
+	caps := make([]string, len(g.routes))
 	for i := range g.routes {
+		caps[i] = "0:0"
 		if rt := scratch.routes[i]; rt != nil {
-			caps[i] = cap(rt.Handlers())
+			caps[i] = fmt.Sprintf("%d:%d", len(rt.Handlers()), cap(rt.Handlers()))
 		}
 	}
-	ops = append(ops, fmt.Sprintf("caps %d %s", cap(scratch.r.Handlers()), gInts(caps)))
+	capStr := strings.Join(caps, ",")
+	if capStr == "" {
+		capStr = "-"
+	}
+	ops = append(ops, fmt.Sprintf("caps %d:%d %s", len(scratch.r.Handlers()), cap(scratch.r.Handlers()), capStr))
 	// the pure tables, for every key a declared request can probe
 	seen := map[string]bool{}
 	paths := []string{}
@@ -239,22 +244,23 @@ func (g *gCase) ops() []string {
 			paths = append(paths, rq.path)
 		}
 	}
-	if g.fallback {
+	if g.fallback && !seen["/*"] {
 		paths = append(paths, "/*")
 	}
+	ntbl := 0
 	for _, p := range paths {
 		for _, m := range ccAnyMethods {
 			if rid, ok := g.matchStable(m, p); ok {
 				ops = append(ops, fmt.Sprintf("tbl stable %s %d", hx(m+p), rid))
-			}
-			if p == "/*" {
-				continue
+				ntbl++
 			}
 			if rid, ps, ok := g.matchDyn(m, p); ok {
 				ops = append(ops, fmt.Sprintf("tbl dyn %s %d %s", hx(m+p), rid, gParams(ps)))
+				ntbl++
 			}
 		}
 	}
+	ops = append(ops, fmt.Sprintf("tblend %d", ntbl))
 	for i, rq := range g.reqs {
 		ops = append(ops, fmt.Sprintf("req %d %s %s", i, rq.method, hx(rq.path)))
 	}
@@ -364,8 +370,14 @@ func (concEngine) Corpus() []Case {
 /**************** generator ****************/
 
 func (concEngine) Gen(r *Rand, tier string) Case {
-	thorough := tier == "thorough"
-	g := gCase{cache: -1, progs: map[int]string{}, groups: map[int]gGroup{}}
+	g, tag := ccGenCase(r, tier == "thorough", 0)
+	return Case{Ops: g.ops(), Tag: tag}
+}
+
+// ccGenCase draws a router shape, requests and a schedule. nReqForce > 0 fixes the number of requests
+// (the stress run wants many request kinds on one router).
+func ccGenCase(r *Rand, thorough bool, nReqForce int) (*gCase, string) {
+	g := &gCase{cache: -1, progs: map[int]string{}, groups: map[int]gGroup{}}
 	if r.Chance(13, 20) {
 		g.cache = r.PickInt([]int{0, 1, 1, 1, 2, 2, 3})
 	}
@@ -531,6 +543,9 @@ func (concEngine) Gen(r *Rand, tier string) Case {
 	if thorough || r.Chance(1, 4) {
 		nReq = r.Range(2, 4)
 	}
+	if nReqForce > 0 {
+		nReq = nReqForce
+	}
 	concrete := func(rt gRoute) string {
 		segs := gSegs(g.fullPath(rt))
 		for i, s := range segs {
@@ -581,5 +596,5 @@ func (concEngine) Gen(r *Rand, tier string) Case {
 	} else {
 		tag += "/tight"
 	}
-	return Case{Ops: g.ops(), Tag: tag}
+	return g, tag
 }
